@@ -46,9 +46,15 @@ func alphabet() []treefs.Op {
 	for _, p := range []string{"f", "d/f", "d/g", "e", "d", "d/e"} {
 		a = append(a, treefs.Op{Kind: "Remove", P: p})
 	}
-	for _, p := range []string{"d", "e", "f", "d/e"} {
+	for _, p := range []string{"d", "e", "f", "d/e", "x"} {
 		a = append(a, treefs.Op{Kind: "RemoveAll", P: p})
 	}
+	// names that are textual prefixes of one another without being ancestors (x / x2, d / d2, e / e2)
+	w("d2/f", "N7")
+	// writing back exactly what the remote holds (value reuse: "unchanged" must be judged against
+	// the cache's own view, not against the remote)
+	w("f", "r0")
+	w("d/f", "r1")
 	a = append(a, treefs.Op{Kind: "CopyFile", P: "f", Q: "x2"}, treefs.Op{Kind: "CopyFile", P: "d/f", Q: "d/h"},
 		treefs.Op{Kind: "CopyDirectory", P: "d", Q: "y"}, treefs.Op{Kind: "CopyDirectory", P: "d/e", Q: "e2"},
 		treefs.Op{Kind: "Copy", P: "d", Q: "z"}, treefs.Op{Kind: "Copy", P: "f", Q: "d/k"},
@@ -153,7 +159,7 @@ type runOut struct {
 	commitErr   string
 }
 
-var readPool = []string{"f", "d", "d/f", "d/g", "d/h", "d/k", "e", "d/e", "d/e/f", "d/e/h", "x", "x/y", "x2", "y", "y/f", "z", "e2", "."}
+var readPool = []string{"d2", "d2/f", "f", "d", "d/f", "d/g", "d/h", "d/k", "e", "d/e", "d/e/f", "d/e/h", "x", "x/y", "x2", "y", "y/f", "z", "e2", "."}
 
 // execute runs one case with both oracles.
 func execute(cs Case, wantC06, wantC07 bool) runOut {
